@@ -4,26 +4,29 @@ import re
 from harness import editrun as E
 
 WHAT = {
- 'D10': 'new text with a line break or a heading line in the middle of a paragraph is placed after the whole paragraph / as new paragraphs; when its anchor run lies inside a tracked change the block path raises AttributeError',
+ 'D10': 'line breaks in new text are not placed where they were requested: the lines after the first become new paragraphs AFTER the whole current paragraph, and new text that consists of line breaks only is dropped (accepted text differs from the requested text)',
  'D26': 'a target that partially overlaps a pending insertion (or spans several) is handled by the nested-insertion shortcut and scrambles text / nests marks',
  'D30': 'a target spanning several paragraphs or runs that are not direct children of one paragraph scrambles the paragraphs / nests marks',
  'D34': 'an insertion point adjacent to a tracked change is anchored on the run inside that change: w:ins nested in another mark',
  'D37': 'occupied ranges are kept in coordinates of a map that is rebuilt after every applied edit: duplicate / overlapping targets after an applied edit are not recognised as conflicts',
  'D39': 'a later edit of a batch is matched against the metadata text ([Chg:n] author, wrappers) that an earlier edit of the same batch added to the raw view',
  'D40': 'a target that also occurs in virtual text of the raw view (comment metadata, author names, markers) is matched there first; the edit is applied next to that place',
+ 'D46': 'an edit whose new text differs from its target only by line breaks is reported applied but leaves nothing except an empty w:ins; the comment it carries is anchored there and never displayed',
  'D32': 'when trimming leaves only virtual markers as target no run is resolved and the edit is reported skipped',
 }
-REGION = {2: 'D10', 3: 'D34', 4: 'D30', 5: 'D26'}
+REGION = {3: 'D34', 4: 'D30', 5: 'D26'}     # (code 2 = heading level above 9: never generated)
 
 def meta_like(t):
     """the target also occurs in text the engine itself generates for a tracked change of this session (wrappers, [Chg:n] author)"""
     tpl = '{++X++}{--X--}{>>[Chg:00] %s\n[Chg:00] %s<<}{==X==}' % (E.AUTHOR, E.AUTHOR)
     return re.sub(r'\d', '0', t) in tpl or re.sub(r'\d', '0', t) in tpl.replace('00', '0') or re.sub(r'\d', '0', t) in tpl.replace('00', '000')
-def classify(c, fail, exception_ok=False, meta_region=False):
+def block_text(n): return bool(re.search(r'[\r\n]', n)) or bool(re.match(r'#+ ', n))
+def classify(c, fail, exception_ok=False, meta_region=False, block_region=False):
     """-> (fail, known) per the model's Outside code for this input"""
     if not fail: return (None, None)
     code = c.get('outside', 0)
     if code == 0:
+        if block_region and any(block_text(e[1]) for e in c.get('edits', [])): return (fail, ('D10', WHAT['D10']))
         if meta_region and len(c.get('edits', [])) > 1 and any(meta_like(e[0]) for e in c['edits']): return (fail, ('D39', WHAT['D39']))
         return (fail, None)
     if code == 1:
@@ -50,18 +53,40 @@ def judge_C02(c, raw, clean, raw_out):
     if f and c.get('outside', 0) == 0 and len(c['edits']) > 1 and any(meta_like(e[0]) for e in c['edits']): return [(f, ('D39', WHAT['D39']))]
     return [classify(c, f, meta_region=True)]
 def in_virtual(c, raw):
-    """some target occurs in the raw view more often than in the real text of the paragraphs: it (also) matches virtual text"""
-    real = '\n'.join(E.para_texts(c['din'], 'raw'))
-    return any(e[0] and raw.count(e[0]) > real.count(e[0]) for e in c['edits'])
+    """the FIRST occurrence of some target in the raw view (where the exact stage of the matcher finds it) overlaps virtual text -
+    comment / change metadata, wrappers, formatting markers, separators - according to the model's span map of the input"""
+    from harness import core, absdoc as A
+    key = id(c['din'])
+    if c.get('_spans_key') != key:
+        out = core.run_driver('nspans', ['(0 %s)' % A.sx_doc(c['din'])])[0]
+        sp = []; off = 0
+        for x in out.split(';'):
+            if not x: continue
+            f = x.split(':'); txt = core.dec(f[0]); sp.append((off, off + len(txt), f[1] == '1')); off += len(txt)
+        c['_spans'] = sp; c['_spans_key'] = key
+    for e in c['edits']:
+        if not e[0]: continue
+        i = raw.find(e[0])
+        if i >= 0 and any((not real) and a < i + len(e[0]) and i < b for a, b, real in c['_spans']): return True
+    return False
 def judge_C08(c, raw, clean, raw_out):
     f = E.oracle_C08(c)
     if f and c.get('outside', 0) == 0 and 'subset' in f and in_virtual(c, raw): return [(f, ('D40', WHAT['D40']))]
     if f and c.get('outside', 0) == 0 and 'subset' in f and conflicting(c, raw, clean): print('D37CASE', c['edits'], f[:300]); return [(f, ('D37', WHAT['D37']))]
     return [classify(c, f, meta_region=True)]
 def judge_C09(c, raw, clean, raw_out): return [classify(c, E.oracle_C09(c))]
-def judge_C10(c, raw, clean, raw_out): return [classify(c, E.oracle_C10(c, raw_out))]
+def only_breaks(c):
+    """some commented edit adds nothing but line breaks to its target"""
+    return any(cm and n != t and re.sub(r'[\r\n]+', '', n) == t for t, n, cm, idx in c['edits'])
+def judge_C10(c, raw, clean, raw_out):
+    f = E.oracle_C10(c, raw_out)
+    if f and c.get('outside', 0) == 0 and 'not shown' in f and only_breaks(c): return [(f, ('D46', WHAT['D46']))]
+    return [classify(c, f)]
 def judge_C16(c, raw, clean, raw_out): return [classify(c, E.oracle_C16(c))]
 
+def unhead(s):
+    """drop the heading prefixes the projection synthesises (at the start of a line or of a table cell)"""
+    return re.sub(r'(?m)(^| \| )#+ ', r'\1', s)
 def bold_led_para(d):
     """some paragraph of the document starts with a bold text-bearing run: the only paragraphs whose "## " prefix is a
     function of their text (get_paragraph_prefix step 3); gate of finding D42"""
